@@ -43,24 +43,24 @@ const (
 	KMember = "member" // S key, X[0] map
 )
 
-func Int(i int) *Expr         { return &Expr{K: KInt, I: i} }
-func Float(f float64) *Expr   { return &Expr{K: KFloat, F: f} }
-func Str(s string) *Expr      { return &Expr{K: KStr, S: s} }
-func Var(n string) *Expr      { return &Expr{K: KVar, S: n} }
+func Int(i int) *Expr       { return &Expr{K: KInt, I: i} }
+func Float(f float64) *Expr { return &Expr{K: KFloat, F: f} }
+func Str(s string) *Expr    { return &Expr{K: KStr, S: s} }
+func Var(n string) *Expr    { return &Expr{K: KVar, S: n} }
 func Bool(b bool) *Expr {
 	if b {
 		return Var("true")
 	}
 	return Var("false")
 }
-func Un(op string, x *Expr) *Expr          { return &Expr{K: KUn, S: op, X: []*Expr{x}} }
-func Bin(op string, a, b *Expr) *Expr      { return &Expr{K: KBin, S: op, X: []*Expr{a, b}} }
-func Let(n string, v, body *Expr) *Expr    { return &Expr{K: KLet, S: n, X: []*Expr{v, body}} }
+func Un(op string, x *Expr) *Expr       { return &Expr{K: KUn, S: op, X: []*Expr{x}} }
+func Bin(op string, a, b *Expr) *Expr   { return &Expr{K: KBin, S: op, X: []*Expr{a, b}} }
+func Let(n string, v, body *Expr) *Expr { return &Expr{K: KLet, S: n, X: []*Expr{v, body}} }
 func Func(n string, params []string, fbody, rest *Expr) *Expr {
 	return &Expr{K: KFunc, S: n, Names: params, X: []*Expr{fbody, rest}}
 }
-func Lam(params []string, body *Expr) *Expr { return &Expr{K: KLam, Names: params, X: []*Expr{body}} }
-func Call(f *Expr, args ...*Expr) *Expr     { return &Expr{K: KCall, X: append([]*Expr{f}, args...)} }
+func Lam(params []string, body *Expr) *Expr  { return &Expr{K: KLam, Names: params, X: []*Expr{body}} }
+func Call(f *Expr, args ...*Expr) *Expr      { return &Expr{K: KCall, X: append([]*Expr{f}, args...)} }
 func SCall(name string, args ...*Expr) *Expr { return &Expr{K: KSCall, S: name, X: args} }
 func MCall(recv *Expr, name string, args ...*Expr) *Expr {
 	return &Expr{K: KMCall, S: name, X: append([]*Expr{recv}, args...)}
@@ -70,11 +70,11 @@ func Switch(v *Expr, pairs []*Expr, def *Expr) *Expr {
 	x := append([]*Expr{v}, pairs...)
 	return &Expr{K: KSwitch, X: append(x, def)}
 }
-func Try(t, c *Expr) *Expr           { return &Expr{K: KTry, X: []*Expr{t, c}} }
-func List(items ...*Expr) *Expr      { return &Expr{K: KList, X: items} }
+func Try(t, c *Expr) *Expr                  { return &Expr{K: KTry, X: []*Expr{t, c}} }
+func List(items ...*Expr) *Expr             { return &Expr{K: KList, X: items} }
 func Map(keys []string, vals []*Expr) *Expr { return &Expr{K: KMap, Names: keys, X: vals} }
-func Index(l, i *Expr) *Expr         { return &Expr{K: KIndex, X: []*Expr{l, i}} }
-func Member(m *Expr, key string) *Expr { return &Expr{K: KMember, S: key, X: []*Expr{m}} }
+func Index(l, i *Expr) *Expr                { return &Expr{K: KIndex, X: []*Expr{l, i}} }
+func Member(m *Expr, key string) *Expr      { return &Expr{K: KMember, S: key, X: []*Expr{m}} }
 
 // Walk visits every node (pre-order).
 func (e *Expr) Walk(f func(*Expr)) {
